@@ -86,6 +86,10 @@ DYADIC = [0.5, 1.5, -0.25, 2.0, 0.125, 3.75, -2.5, 8.0, 0.0]
 WILD = [1e308, 1.0, -1e308, 1e16, -1e16, 0.1, 0.2, 0.3, 1e-300, 5e-324, 1e30, -1e30, 0.7, 1e-16,
         123456789.123456789, -0.1, 2.0 ** 60, 3.0, 1e200, -1e200]
 SMALLDY = [0, 1, 2, 3, -1, 4, -3, 0.5, 1.5, -0.25, 2.75, 6.0]
+# integers beyond 2**53 and exact rationals: Python's sum of them is exact, a premature
+# conversion to float is not
+BIGINT = [2 ** 53 + 1, 1, -2 ** 53, 10 ** 30, -10 ** 30, 3, 2 ** 64, -2 ** 64 + 7, Fraction(1, 10),
+          Fraction(-1, 3)]
 
 
 def draw_number(tape, family):
@@ -97,6 +101,8 @@ def draw_number(tape, family):
         return tape.choice(WILD, "wild")
     if family == "smalldy":
         return tape.choice(SMALLDY, "smalldy")
+    if family == "bigint":
+        return tape.choice(BIGINT, "bigint")
     # mixed
     fam = tape.choice(["int", "dyadic", "wild"], "family")
     return draw_number(tape, fam)
@@ -112,6 +118,11 @@ def draw_context(tape, serial, keyed=False, scale=False):
     if kind == "empty":
         return kind, {}
     ctx = {"k": tape.draw(3, "k"), "nest": {"i": serial, "l": [serial]}}
+    # equal sub-dictionaries built in different insertion orders
+    if serial % 2:
+        ctx["unit"] = {"name": "x", "u": "cm"}
+    else:
+        ctx["unit"] = {"u": "cm", "name": "x"}
     if tape.draw(2, "j"):
         ctx["j"] = tape.draw(2, "jv")
     if scale and tape.draw(3, "scale") == 0:
@@ -265,7 +276,9 @@ class KCount(Kind):
     name = "Count"
 
     def draw_cfg(self, tape):
-        return {"name": tape.choice(["count", "n"], "name"), "start": tape.choice([0, 0, 3], "start")}
+        # a name with a dot is one key, not a path; "k" collides with a key of the filled contexts
+        return {"name": tape.choice(["count", "n", "cut.passed", "k"], "name"),
+                "start": tape.choice([0, 0, 3], "start")}
 
     def build(self, cfg, fresh):
         return lena.flow.Count(cfg["name"], 0 if fresh else cfg["start"])
@@ -296,7 +309,7 @@ class KSum(Kind):
 
     def draw_cfg(self, tape):
         return {"start": tape.choice([0, 0, 5, 0.5], "start"),
-                "family": tape.choice(["int", "dyadic", "mixed", "wild"], "family")}
+                "family": tape.choice(["int", "dyadic", "mixed", "wild", "bigint"], "family")}
 
     def build(self, cfg, fresh):
         if fresh:
@@ -357,9 +370,12 @@ class KMean(Kind):
     name = "Mean"
 
     def draw_cfg(self, tape):
-        return {"sum": tape.choice(["plain", "Sum", "DSum"], "sumseq"),
-                "pass": bool(tape.draw(2, "pass_on_empty")),
-                "family": tape.choice(["int", "dyadic", "mixed", "wild"], "family")}
+        cfg = {"sum": tape.choice(["plain", "Sum", "DSum"], "sumseq"),
+               "pass": bool(tape.draw(2, "pass_on_empty")),
+               "family": tape.choice(["int", "dyadic", "mixed", "wild", "bigint"], "family")}
+        if cfg["sum"] == "DSum" and cfg["family"] == "bigint":
+            cfg["family"] = "wild"        # Decimal(Fraction) is not defined
+        return cfg
 
     def build(self, cfg, fresh):
         ss = None
@@ -567,7 +583,7 @@ class KGroupBy(Kind):
     fresh_results = False     # yields the filled values themselves
 
     def draw_cfg(self, tape):
-        return {"by": tape.choice(["default", "k", "kj", "merge-nest"], "group_by")}
+        return {"by": tape.choice(["default", "k", "kj", "merge-nest", "unit"], "group_by")}
 
     def keyed(self, cfg):
         return True
@@ -580,6 +596,8 @@ class KGroupBy(Kind):
             return lena.flow.GroupBy("k")
         if by == "kj":
             return lena.flow.GroupBy(("k", "j"))
+        if by == "unit":
+            return lena.flow.GroupBy("unit")
         return lena.flow.GroupBy("", merge="nest")
 
     def draw_data(self, tape, cfg, serial):
@@ -594,9 +612,12 @@ class KGroupBy(Kind):
             return repr(ctx.get("k", MISSING))
         if by == "kj":
             return repr((ctx.get("k", MISSING), ctx.get("j", MISSING)))
+        if by == "unit":
+            u = ctx.get("unit")
+            return repr(sorted(u.items())) if isinstance(u, dict) else MISSING
         c = dict(ctx)
         c.pop("nest", None)
-        return repr(sorted(c.items()))
+        return repr(canon(c))      # insensitive to the insertion order of nested dictionaries
 
     def check(self, cfg, hist, started, outcome):
         if outcome[0] != "ok":
